@@ -40,6 +40,14 @@
 #define VP_SEQBITS 56 /* sequence numbers and the snapshot range over [0, 2^VP_SEQBITS) */
 #endif
 #define VP_SEQMAX ((UINT64_C(1) << VP_SEQBITS) - 1)
+/* VP_TRIM 1: after step 0 saved_value.alloc is set to VP_TRIM_ALLOC (state
+   injection, see harness()): covers the trimming of an oversized saved_value */
+#ifndef VP_TRIM
+#define VP_TRIM 0
+#endif
+#ifndef VP_TRIM_ALLOC
+#define VP_TRIM_ALLOC (2u << 20)
+#endif
 
 /* util/random.c is below the unit: the read-sampling period is modelled as
    the constant mean (1 MiB) of the real uniform [0, 2 MiB) draw */
@@ -201,6 +209,9 @@ harness(void) {
   {
     int k, op = 0;
     uint8_t t[1];
+#if VP_TRIM
+    int injected = 0, trimmed = 0;
+#endif
 
     for (k = 0; k < VP_K; k++) {
       op = vp_u8();
@@ -208,7 +219,29 @@ harness(void) {
       VP_ASSUME((vp_os[k] >> op) & 1);
       t[0] = vp_u8();
       vp_apply(op, vp_os[k], t);
+
+#if VP_TRIM
+      /* state injection after the positioning step: the saved-value buffer
+         has the huge capacity an earlier multi-megabyte value would have left
+         behind (data stays a valid allocation, alloc >= size), so that the
+         next backward step takes the "trim an oversized saved_value" branch
+         of find_prev_user_entry (ldb_buffer_reinit before the copies) */
+      if (k == 0 && vp_cur >= 0) {
+        ldb_buffer_grow(&vp_di->saved_value, 1);
+        vp_di->saved_value.alloc = VP_TRIM_ALLOC;
+        injected = 1;
+      }
+
+      if (k == 1 && injected && vp_cur >= 0 &&
+          vp_di->saved_value.alloc < VP_TRIM_ALLOC)
+        trimmed = 1;
+#endif
     }
+
+#if VP_TRIM
+    if (trimmed)
+      VP_WITNESS("oversized-saved-value-trimmed-and-entry-still-yielded");
+#endif
 
     if (vp_cur >= 0) {
 #if VP_LAST_FIRST
@@ -223,7 +256,7 @@ harness(void) {
 #if VP_K >= 2 && VP_N >= 2 && VP_LAST_NEXT
       if (op == VP_OP_NEXT) VP_WITNESS("next-valid");
 #endif
-#if VP_K >= 2 && VP_N >= 2 && VP_LAST_PREV
+#if VP_K >= 2 && VP_N >= 2 && VP_LAST_PREV && (!VP_TRIM || VP_N >= 3)
       if (op == VP_OP_PREV) VP_WITNESS("prev-valid");
 #endif
     } else {
